@@ -63,12 +63,14 @@ def validate_data(memory_geff: InMemoryGeff, config: ValidationConfig) -> None:
             raise ValueError(f"Repeated edges found in data:\n{invalid_edges}")
 
     if config.sphere and meta.sphere is not None:
-        radius = memory_geff["node_props"][meta.sphere]["values"]
-        validate_sphere(radius)
+        sphere_prop = memory_geff["node_props"][meta.sphere]
+        validate_sphere(sphere_prop["values"], sphere_prop.get("missing"))
 
     if config.ellipsoid and meta.ellipsoid is not None:
-        covariance = memory_geff["node_props"][meta.ellipsoid]["values"]
-        validate_ellipsoid(covariance, memory_geff["metadata"].axes)
+        ellipsoid_prop = memory_geff["node_props"][meta.ellipsoid]
+        validate_ellipsoid(
+            ellipsoid_prop["values"], memory_geff["metadata"].axes, ellipsoid_prop.get("missing")
+        )
 
     if meta.track_node_props is not None:
         if config.tracklet and "tracklet" in meta.track_node_props:
